@@ -312,3 +312,27 @@ M("C15", "wmom-normalises-weights", [(SU, "    weights = np.atleast_1d(weights_i
   "calcerr and sdev together: native float64 weights are normalised in place")
 M("C15", "cosmo-dc-clips-inplace", [("esutil/cosmology/cosmology.py", "    return np.atleast_1d(np.asarray(arr, dtype='f8', order='C'))", "    out = np.atleast_1d(np.asarray(arr, dtype='f8', order='C'))\n    if out.flags.writeable:\n        np.abs(out, out=out)\n    return out")],
   "harmless for the non-negative redshifts of the workload (abs of a non-negative double keeps its bits)", control=True)
+
+# ---- C11
+CL = "esutil/cosmology/cosmolib.c"
+CW = "esutil/cosmology/cosmolib_pywrap.c"
+CY = "esutil/cosmology/cosmology.py"
+M("C11", "da-divides-by-zmin", [(CL, "    d = Dm(c, zmin, zmax);\n    d /= (1.+zmax);", "    d = Dm(c, zmin, zmax);\n    d /= (1.+zmin);")],
+  "Da between two redshifts divides by 1+zmin (right only for zmin = 0 ... and wrong even then: (1+0))")
+M("C11", "omega-k-sign-in-E", [(CL, "c->omega_m*oneplusz2*oneplusz + c->omega_k*oneplusz2 + c->omega_l;", "c->omega_m*oneplusz2*oneplusz - c->omega_k*oneplusz2 + c->omega_l;")])
+M("C11", "dl-vec1-vec2-swapped-dispatch", [(CY, "            zmin = _as_c_order(zmin)\n            d = self._cosmo.Dl_vec1(zmin, zmax)", "            zmin = _as_c_order(zmin)\n            d = self._cosmo.Dl_vec2(zmax, zmin)")],
+  "Dl(array zmin, scalar zmax) evaluates Dl(zmax, zmin[i])")
+M("C11", "npts-4", [("esutil/cosmology/cosmolib.h", "#define NPTS 5", "#define NPTS 4")], "4-point rule instead of the documented 5-point rule")
+M("C11", "copy-drops-omega-k", [(CY, "            omega_l=self._omega_l,\n            omega_k=self._omega_k,\n        )", "            omega_l=self._omega_l,\n        )")],
+  "copy()/copy.copy/deepcopy of a curved cosmology is flat")
+M("C11", "ascorder-fastpath", [(CY, "    return np.atleast_1d(np.asarray(arr, dtype='f8', order='C'))", "    if isinstance(arr, np.ndarray) and arr.dtype == np.float64:\n        return np.atleast_1d(arr)\n    return np.atleast_1d(np.asarray(arr, dtype='f8', order='C'))")],
+  "non-contiguous float64 views are read with stride 8 from the base pointer (the seeded change)")
+M("C11", "dm-closed-uses-sinh", [(CL, "            d= sin(d*c->tcfac)/c->tcfac;", "            d= sinh(d*c->tcfac)/c->tcfac;")], "closed models use the open-model formula")
+M("C11", "scinv-strict-inequality", [(CL, "    if (zs <= zl) {\n        return 0.0;", "    if (zs < zl) {\n        return 0.0;")],
+  "equal redshifts fall through: zero only because Da(zl,zl) = 0, and nan (0*0/0) for zl = zs = 0")
+M("C11", "pickle-drops-h0", [(CY, "        return (\n            self.H0(),\n            None,", "        return (\n            100.0 if self.H0() > 110.0 else self.H0(),\n            None,")],
+  "unpickled objects with H0 > 110 fall back to H0 = 100")
+M("C11", "2vec-one-past-end", [(CW, "    for (i=0; i<n; i++) {\n        res[i] = Da(self->cosmo, zmin[i], zmax[i]); \n    }", "    for (i=0; i<n + (n > 64); i++) {\n        res[i] = Da(self->cosmo, zmin[i], zmax[i]); \n    }")],
+  "Da with two arrays longer than 64 reads and writes one element past the end (heap overflow: ASan)")
+M("C11", "vnpts-weights-from-5pt", [(CL, "        v += f1*dv*c->vw[i];", "        v += f1*dv*c->vw[i]*(1.0 + 1e-7);")], "volume 1e-7 too large")
+M("C11", "h-does-not-override", [(CY, "        if h is not None:\n            H0 = 100.0 * h\n", "        if h is not None and H0 == 100.0:\n            H0 = 100.0 * h\n")], "h is ignored when H0 is also given")
